@@ -225,12 +225,47 @@ fn(H1 + ".__init__",
 cls(M + "H2CProtocolRequiredError", fields={"data": "bytes", "headers": "hdrs", "settings": "str"})
 # what the switch carries over: the unconsumed bytes, and the upgrade request as an HTTP/2 header
 # list (method and target as pseudo-headers first, then every header line in order)
+# h2c_hdrs(hs, n): the first n header lines of the upgrade request as HTTP/2 stream 1 gets them --
+# every line, in order, each host line preceded by an :authority pseudo-header with its value
+# (C13 "no client byte is lost or duplicated across a switch": no header line is lost either)
+specfn("h2c_hdrs", ["hs:hdrs", "n:int"], rec="n", returns="hdrs", base="[]",
+       step="h2c_hdrs(hs, n - 1) + ite(hs[n - 1][0].lower() == b'host', [(b':authority', hs[n - 1][1])], []) + [hs[n - 1]]")
+
+
+def _h2c_native_args(rng):
+    import h11
+
+    names = [b"host", b"cookie", b"x-forwarded-for", b"accept", b"http2-settings", b"upgrade", b"connection"]
+    hs = [(b"host", b"example.com")] + [(rng.choice(names[1:]), rng.choice([b"a", b"b", b"c=1", b"AAMAAABkAAQAAP__", b"h2c"])) for _ in range(rng.randrange(0, 6))]
+    rng.shuffle(hs)
+    req = h11.Request(method="GET", target=b"/p", headers=hs)
+    from hypercorn.protocol.h11 import H2CProtocolRequiredError
+
+    return {"self": H2CProtocolRequiredError.__new__(H2CProtocolRequiredError), "data": b"xyz", "request": req}
+
+
+def _h2c_native_oracle(args, result, exc=None):
+    """self.headers == [(:method), (:path)] + every header line in order, each host line preceded by :authority"""
+    if exc is not None:
+        return isinstance(exc, UnicodeDecodeError)
+    me, req = args["self"], args["request"]
+    want = [(b":method", req.method), (b":path", req.target)]
+    for n, v in req.headers:
+        if n.lower() == b"host":
+            want.append((b":authority", v))
+        want.append((n, v))
+    return list(me.headers) == want and me.data == args["data"]
+
+
 fn(M + "H2CProtocolRequiredError.__init__", params={"data": "bytes", "request": REQ},
    raises={"UnicodeDecodeError": None},
+   model_opts={"native_args": _h2c_native_args, "native_oracle": _h2c_native_oracle, "native_oracle_name": "C13.h2c.error.all-headers (native oracle)"},
    loops={0: {"locals": {"name": "bstr", "value": "bstr", "headers": "hdrs", "settings": "str"},
-              "invariant": [("C13.h2c.error.scan", "starts_with_seq(headers, old(headers))", "C13")]}},
+              "invariant": [("C13.h2c.error.scan", "headers == [(b':method', request.method), (b':path', request.target)] + h2c_hdrs(request.headers, _i)", "C13")]}},
    ensures=[("C13.h2c.error.data", "self.data == data", "C13"),
-            ("C13.h2c.error.pseudo", "self.headers[0] == (b':method', request.method) and self.headers[1] == (b':path', request.target)", "C13")],
+            ("C13.h2c.error.pseudo", "self.headers[0] == (b':method', request.method) and self.headers[1] == (b':path', request.target)", "C13"),
+            # every header line of the upgrade request reaches stream 1, in order (repeated names included)
+            ("C13.h2c.error.all-headers", "self.headers == [(b':method', request.method), (b':path', request.target)] + h2c_hdrs(request.headers, len(request.headers))", "C13,C01")],
    props=("C13", "C04"))
 cls(M + "H2ProtocolAssumedError", fields={"data": "bytes"})
 
